@@ -190,6 +190,13 @@ func (w *lkWalker) expr(e ast.Expr) []lkEv {
 
 // lhs returns the events of assigning to e.
 func (w *lkWalker) lhs(e ast.Expr) []lkEv {
+	// a write THROUGH a pointer kept in a receiver field (recv.f.g = v, recv.f.g[i] = v, *recv.f = v) is a write
+	// to an object shared by everything that holds the same pointer: recorded under the full source text
+	if id, depth := lkRootIdent(e); id != nil && depth >= 2 && w.recv != "" && id.Name == w.recv {
+		if _, isField := e.(*ast.IndexExpr); !isField || depth >= 3 {
+			return append(w.expr(e), lkEv{"Write", w.prefix + w.p.src(e)})
+		}
+	}
 	switch t := e.(type) {
 	case *ast.SelectorExpr:
 		if n, ok := w.isRecvField(t); ok {
@@ -739,6 +746,85 @@ func smtpClientVarUses(p *pkg, root string) (uses []varUse, analysed []string) {
 	return
 }
 
+// ---- writes through pointer parameters and through pointers held in receiver fields ----
+//
+// paramPointeeWrites lists, for every function declaration of a package, the assignments (=, op=, ++/--)
+// whose left-hand side is rooted at a pointer-typed PARAMETER p but is not p itself: p.f = v, p.f[i] = v,
+// *p = v.  Such a write modifies an object of the caller (e.g. the *tls.Config that mail.Client keeps in
+// c.tlsconfig and hands to smtp.Client.StartTLS for every connection).  Not seen: writes after copying the
+// pointer into a local, writes performed by callees the parameter is passed on to, reflection.
+func lkRootIdent(e ast.Expr) (*ast.Ident, int) {
+	depth := 0
+	for {
+		switch t := e.(type) {
+		case *ast.Ident:
+			return t, depth
+		case *ast.SelectorExpr:
+			e = t.X
+		case *ast.IndexExpr:
+			e = t.X
+		case *ast.StarExpr:
+			e = t.X
+		case *ast.ParenExpr:
+			e = t.X
+			continue
+		default:
+			return nil, depth
+		}
+		depth++
+	}
+}
+
+func paramPointeeWrites(p *pkg, prefix string) (out [][2]string) {
+	var names []string
+	for n := range p.funcs {
+		names = append(names, n)
+	}
+	sort.Strings(names)
+	for _, n := range names {
+		decl := p.funcs[n]
+		if decl.Body == nil || decl.Type.Params == nil {
+			continue
+		}
+		ptr := map[string]bool{}
+		for _, f := range decl.Type.Params.List {
+			if _, ok := f.Type.(*ast.StarExpr); ok {
+				for _, id := range f.Names {
+					ptr[id.Name] = true
+				}
+			}
+		}
+		if len(ptr) == 0 {
+			continue
+		}
+		seen := map[string]bool{}
+		check := func(l ast.Expr) {
+			id, depth := lkRootIdent(l)
+			if id != nil && depth > 0 && ptr[id.Name] {
+				t := p.src(l)
+				if !seen[t] {
+					seen[t] = true
+					out = append(out, [2]string{prefix + n, t})
+				}
+			}
+		}
+		ast.Inspect(decl.Body, func(x ast.Node) bool {
+			switch t := x.(type) {
+			case *ast.AssignStmt:
+				if t.Tok != token.DEFINE {
+					for _, l := range t.Lhs {
+						check(l)
+					}
+				}
+			case *ast.IncDecStmt:
+				check(t.X)
+			}
+			return true
+		})
+	}
+	return
+}
+
 func init() {
 	extras = append(extras, func(p, sp *pkg) {
 		type item struct {
@@ -795,6 +881,11 @@ func init() {
 		sort.Strings(allMethods)
 		allWrites, _ := clientAccesses(p, allMethods, "Write")
 		scopeReads, _ := clientAccesses(p, roots, "Read")
+		ppw := append(paramPointeeWrites(sp, "smtp:"), paramPointeeWrites(p, "")...)
+		for _, w := range ppw {
+			em.ident(w[0])
+			em.ident(w[1])
+		}
 		ownerUses, ownerFns := smtpClientVarUses(p, "Client.DialAndSendWithContext")
 		{
 			u2, f2 := smtpClientVarUses(p, "Client.DialToSMTPClientWithContext")
@@ -890,6 +981,15 @@ func init() {
 		emitAcc("client_inscope_reads", scopeReads)
 		emit("(* package smtp: every access (read or write) to a field of smtp.Client in any of its %d methods, with the lockset\n   (each method is a root; direct c.method() calls are followed with the caller's lockset) *)\n", len(smtpMethods))
 		emitAcc("smtp_client_accesses", smtpAcc)
+		emit("(* assignments through pointer PARAMETERS (function, left-hand side) in packages smtp and mail: writes to objects of the caller *)\n")
+		emit("Definition param_pointee_writes : list (list N * list N) :=\n  [")
+		for i, w := range ppw {
+			if i > 0 {
+				emit(";\n   ")
+			}
+			emit("(%s, %s)", em.names[w[0]], em.names[w[1]])
+		}
+		emit("].\n")
 		emit("(* ownership of the *smtp.Client on the DialAndSend path: uses of the variable in %s *)\n", strings.Join(ownerFns, ", "))
 		emit("Definition smtp_client_var_uses : list (list N * list N) :=\n  [")
 		for i, u := range ownerUses {
